@@ -339,3 +339,63 @@ def memo_key_covers_inputs(ctx, rule, modules, floor=1, witness=(), exempt=()):
         ctx.ob(rule, 'memo-tables-in-%s' % '+'.join(modules), True, None, None,
                '%d memo table(s) in scope, each keyed by all inputs (recogniser confirmed on %d known table(s) in %s)'
                % (n_ob, n_wit, '+'.join(witness)))
+
+
+LOOKUP_ERRORS = ('KeyError', 'IndexError', 'AttributeError')
+
+
+def _can_raise(m, fi, body, exc, depth=0):
+    """does the statement list contain a construct that raises ``exc`` by itself: a subscript / del / pop for KeyError
+    and IndexError, an attribute access / getattr for AttributeError -- directly, through a local alias of a bound
+    method (bpopleft = buffer.popleft), or one level down in a package method of that name"""
+    for st in body:
+        for x in ast.walk(st):
+            if exc in ('KeyError', 'IndexError'):
+                if isinstance(x, ast.Subscript) and not isinstance(x.slice, ast.Slice):
+                    return True
+                if isinstance(x, ast.Call):
+                    cal = fi.callee(x)
+                    last = cal.split('.')[-1]
+                    if last in ('pop', 'popleft', 'popitem', 'remove') or (exc == 'KeyError' and last in ('__getitem__',)):
+                        return True
+                    if exc == 'IndexError' and last == 'next':
+                        return False
+            if exc == 'AttributeError':
+                if isinstance(x, ast.Attribute):
+                    return True
+                if isinstance(x, ast.Call) and fi.callee(x) == 'getattr' and len(x.args) == 2:
+                    return True
+            if isinstance(x, ast.Call) and depth < 1 and isinstance(x.func, ast.Attribute):
+                name = x.func.attr
+                for g in m.funcs.values():
+                    if g.name == name and g.cls is not None and g.module.name == fi.module.name and \
+                            _can_raise(m, g, g.node.body, exc, depth + 1):
+                        return True
+    return False
+
+
+def handlers_match_lookups(ctx, rule, modules, floor=1, only=None):
+    """``only``: optional predicate on FuncInfo restricting the functions looked at."""
+    ctx.rule(rule, 'a handler for a lookup error (KeyError / IndexError / AttributeError) sits around a lookup that can '
+                   'raise it: when the lookup is replaced by something that fails differently the handler is dead and '
+                   'the new failure escapes', floor=floor)
+    m = ctx.model
+    n_ob = 0
+    for qn, fi in sorted(m.funcs.items()):
+        if fi.module.name not in modules or (only is not None and not only(fi)):
+            continue
+        for t in [x for x in walk_own(fi.node) if isinstance(x, ast.Try)]:
+            for h in t.handlers:
+                if h.type is None:
+                    continue
+                names = [ast.unparse(e) for e in (h.type.elts if isinstance(h.type, ast.Tuple) else [h.type])]
+                if not names or any(n not in LOOKUP_ERRORS for n in names):
+                    continue
+                n_ob += 1
+                ok = any(_can_raise(m, fi, t.body, n) for n in names)
+                ctx.ob(rule, '%s:handler-%s@L%d' % (fi.qual.split(':')[1], '+'.join(names), t.lineno - fi.node.lineno),
+                       ok, fi, h,
+                       'the try body contains a lookup that raises %s' % '/'.join(names) if ok else
+                       'nothing in the try body raises %s any more (the lookup was replaced?): what it raises now -- e.g. '
+                       'ValueError from an enum / constructor lookup -- is not caught here' % '/'.join(names))
+    q.need(n_ob >= floor, 'no lookup-error handler found in %s' % (modules,))
